@@ -13,6 +13,7 @@ NAMED = []
 
 
 def register(w):
+    w.always_standin["C15"] = [("pygopherd/gopherentry.py::GopherEntry.handleeaext", "the lines of a block are the lines of its sidecar file: the relation between readlines() and the file content is not modelled")]
     w.always_standin["C06"] = [("pygopherd/protocols/http.py::HTTPProtocol.renderobjinfo", "equivalence of one entry's link target across five renderers, and of informational lines across protocols and abstract options, is a relation between functions"),
                                ("pygopherd/protocols/gemini.py::GeminiProtocol.handle", "the same search string through every protocol's own mechanism")]
     def replace(q, classes, **kw):
